@@ -33,9 +33,9 @@ CHECKS = {
   'text': 'Proof (partial): for every L (incl. chains shorter than the longest term), all parameters and all Bose dimensions: the chain lists handed to from_opchains are well formed, are word by word '
           'the documented sums of local terms (XXZ spin-1/2 and spin-1, Bose-Hubbard, Fermi-Hubbard with the Jordan-Wigner factor; Ising via its automaton), the compiled graphs denote those sums '
           '(via C05/C17), operator tables are charge consistent (magnetization / particle number / spin) and whenever a constructor returns all tensors are block sparse, and the term lists are closed '
-          'under the adjoint word map for real parameters (28 theorems). Not proved: the last step from symbolic words to the dense matrix (kron semantics of from_opgraph is in C05 but not chained here), '
-          'the words of the hand-built linear_fermionic graph (modelled completely and compared exactly), dense Hermiticity; these are carried by the exact correspondence of chain lists, tables, graphs '
-          'and MPO tensors for L = 1..6 and by the oracle.',
+          'under the adjoint word map for real parameters; the dense elements of the returned MPO equal the documented term lists for every L >= 1 and all parameters (XXZ, spin-1 XXZ, Bose-Hubbard every d, '
+          'Fermi-Hubbard, Ising) and the dense operator is Hermitian for real parameters (41 theorems, conditional on the constructor returning). Not proved: words / dense matrix of the hand-built '
+          'linear_fermionic graph (modelled completely and compared exactly for L = 1..6), that the constructors return for every L (C05/C17 give it under their guards), that is_qsparse never fires.',
   'note': KERNEL_NOTE + ' No kernel contracts. sqrt(2), sqrt(k) of the spin-1 / Bose tables are symbols whose square is given.',
   'design_ref': 'DESIGN.md §7 C06',
  },
@@ -43,7 +43,8 @@ CHECKS = {
   'text': 'Proof (partial): for every orbital count and all coefficient tensors the chain enumeration of the bond-optimized spinless and spin-orbital constructions never fails (case analysis, '
           'to_spin_opchain look-ups and charge assertions) and yields well-formed chains, so with C05 the optimized construction succeeds incl. L = 1 and its graph denotes the sum of its chains; '
           'explicit constructions: node ids pairwise distinct, terminal look-ups defined, (spinless, L >= 4) every look-up made by term insertion defined; tensors block sparse whenever a constructor '
-          'returns (10 theorems). Not proved: equality with the second-quantized operator and optimized = explicit (compared as complete graphs / MPOs by the correspondence and densely by the oracle); '
+          'returns; dense elements of the optimized MPOs equal the sum over the enumerated chains (12 theorems). Not proved: that this chain sum equals the second-quantized operator and optimized = explicit '
+          '(compared as complete graphs / MPOs by the correspondence and densely by the oracle); '
           'the gauge-transform clause is a numerical always-on sub-check (L up to 7/8, complex unitaries), not a theorem: the transform is not modelled.',
   'note': KERNEL_NOTE + ' No kernel contracts.',
   'design_ref': 'DESIGN.md §7 C07',
@@ -60,8 +61,8 @@ CHECKS = {
  'C16': {
   'text': 'Proof (partial correctness, full for the listed rewrites): on every graph passing is_consistent (duplicate-free dictionaries) flip reverses every term, rename_node_id / rename_edge_id / '
           'merge_edges (both cases, exactly under the asserted conditions) / each _simplify_step / simplify / add preserve resp. add the path-sum denotation and keep is_consistent true; each successful '
-          'simplify step removes one edge; any finite sequence of these rewrites (history) (14 theorems). Not proved: that simplify/add return (termination within the model fuel) — observed by the '
-          'correspondence; "other graph untouched" is trivial in a functional model and is carried by the correspondence (other_unchanged / shares_objects) and oracle.',
+          'simplify step removes one edge; any finite sequence of these rewrites (history); totality: simplify, _simplify_step, rename_* and add return on every valid graph under the preconditions of the code '
+          '(no assertion, no fuel exhaustion) (21 theorems). "Other graph untouched" is trivial in a functional model and is carried by the correspondence (other_unchanged / shares_objects) and the oracle.',
   'note': KERNEL_NOTE + ' No kernel contracts.',
   'design_ref': 'DESIGN.md §7 C16',
  },
@@ -69,7 +70,8 @@ CHECKS = {
   'text': 'Proof (full for the chains->graph clause; graph->MPO conditional on the conversion returning): the half-chain partition and the site step preserve the weighted sum for ANY cover routine; '
           'from_opchains denotes exactly the sum of padded chains (duplicates, accumulation, cancellation, single chain with any coefficient, L = 1), the graph is consistent, has the requested '
           'length, and under the decidable guard ChainsWF the call returns (uses C18); from_opgraph tensors contract to the graph denotation for every operator map, bond charges are node charges '
-          'in sorted-id order, the node map locates every node (14 theorems). Tie: exact correspondence of complete graphs/MPOs incl. exhaustive small chain lists.',
+          'in sorted-id order, the node map locates every node; for graphs with a single sink (proved for from_opchains / from_automaton results) the resulting MPO is shaped and its digit-indexed elements, '
+          'hence both as_matrix forms, equal the sum over the denoted words (21 theorems). Tie: exact correspondence of complete graphs/MPOs incl. exhaustive small chain lists.',
   'note': KERNEL_NOTE + ' No kernel contracts. from_opgraph theorems assume the call returns (operator ids present, charge-consistent operators).',
   'design_ref': 'DESIGN.md §7 C05',
  },
@@ -84,7 +86,7 @@ CHECKS = {
  'C17': {
   'text': 'Proof (nearly full): graph from an automaton denotes the sum over automaton paths (site-dependent activity/coefficients, dead states pruned), is consistent and of length L; inserting chains/subtrees '
           'adds exactly their padded path sums; graph from a tree list denotes the sum of padded trees before and after simplify and is consistent; dense meaning of chains, trees (incl. unequal heights, '
-          'single leaf) and graphs (both directions) equals the symbolic meaning under any operator map (21 theorems). Not proved: length = L after the final simplify (proved before it), totality.',
+          'single leaf) and graphs (both directions) equals the symbolic meaning under any operator map; length = L also after the final simplify (21 theorems). Not proved: totality of from_optrees/from_automaton.',
   'note': KERNEL_NOTE + ' No kernel contracts.',
   'design_ref': 'DESIGN.md §7 C17',
  },
